@@ -236,6 +236,58 @@ def shallow_water_equivariance_contract(en: E.Engine, method='explicit_terms'):
                                            back_end='multilinear-normal-form', detail=why))
 
 
+# ---- C20: Held-Suarez forcing as an operator expression ---------------------------------------------------------------------------------------
+
+KV, KT, COSL = (z3.Const(n, Fld) for n in ('kv', 'kt', 'cos_lat'))
+TEQ, EXPF = U1('equilibrium_temperature'), U1('nodal_exp')
+
+
+def held_suarez_contract(en: E.Engine):
+  """HeldSuarezForcing.explicit_terms == Rayleigh drag on the wind and Newtonian relaxation of the temperature, as an operator expression:
+       (vorticity, divergence) tendency = (curl, div) of to_modal(-kv * u cos(lat) / cos^2(lat)) with u cos(lat) the *unclipped* cos-lat wind of the state,
+       temperature tendency = to_modal(-kt * (T_ref + T' - T_eq(exp(ln ps)))),   log-surface-pressure and tracer tendencies zero.
+  kv, kt and T_eq are opaque nodal coefficient fields here (their formulas are the coefficient clauses of this property)."""
+  W._neg_fix(en)
+  import jax.numpy as jnp
+  from dinosaur import held_suarez as hs
+  from vlib.pyvc.libspec import _reg
+  g, r = _grid(en)
+  g.cos_lat = COSL
+  base = en.sort_ops['Fld']
+  en.sort_ops['Fld'] = dict(base, Pow=lambda en_, a, b: W.NMUL(a, a) if (W._is_fld(a) and b == 2) else (_ for _ in ()).throw(E.Unsupported('power of a field')))
+  _reg(en, jnp.exp, lambda en_, x: EXPF(x), 'jnp.exp on a nodal field (opaque)')
+  en.libspec[('subscript', 'Fld')] = (None, lambda en_, x, idx: x)            # reference_temperature[:, None, None]: broadcast against the field
+  C = lambda nm: z3.Const(nm, Fld)
+  zeta, delta, T, lnps, q = (C(n) for n in ('zeta', 'delta', 'T', 'lnps', 'q'))
+  self = E.Obj(class_ref=hs.HeldSuarezForcing, coords=E.Obj(horizontal=g, vertical=E.Obj(layers=en.int('layers'), layer_thickness=Marker('thickness')), dycore_sharding=None),
+               reference_temperature=TREF, kv=E.SymCallable(lambda en_: KV, 'kv() (coefficient clause of this property)'), kt=E.SymCallable(lambda en_: KT, 'kt()'),
+               equilibrium_temperature=E.SymCallable(lambda en_, p: TEQ(p), 'equilibrium_temperature(p)'))
+  en.cover('requires: radius > 0')
+  kind, out = en.invoke(en.getattr(self, 'explicit_terms'), mkstate(vorticity=zeta, divergence=delta, temperature_variation=T, log_surface_pressure=lnps, tracers={'q': q}))
+  if kind == 'raise':
+    en.ensure(f'explicit_terms runs ({out})', False)
+    return
+  u0, u1 = W._wind_spec(zeta, delta, r, False)                                  # compute_diagnostic_state takes the wind with clip=False
+  drag = lambda c: W.TOM(W.NMUL(W.NMUL(W.NEG(KV), W.TON(c)), RECIP(W.NMUL(COSL, COSL))))
+  v = (drag(u0), drag(u1))
+  W.ensure_expr(en, 'vorticity tendency == curl_cos_lat(to_modal(-kv u cos(lat) / cos^2(lat))) with the unclipped wind of the state',
+                out.vorticity == W.CLIP(W.DIVS(W.SUB(W.DLON(v[1]), W.SLDC(v[0])), r)))
+  W.ensure_expr(en, 'divergence tendency == div_cos_lat(to_modal(-kv u cos(lat) / cos^2(lat)))', out.divergence == W.CLIP(W.DIVS(W.ADD(W.DLON(v[0]), W.SLDC(v[1])), r)))
+  W.ensure_expr(en, 'temperature tendency == to_modal(-kt (T_ref + T\' - T_eq(exp(ln ps))))',
+                out.temperature_variation == W.TOM(W.NMUL(W.NEG(KT), W.SUB(W.ADD(TREF, W.TON(T)), TEQ(EXPF(W.TON(lnps)))))))
+  alg = ML.Algebra(opaque={'equilibrium_temperature', 'nodal_exp', 'nodal_reciprocal'})
+  zero = lambda t: not alg.expand(t)
+  en.results.append(E.ObligationResult('log-surface-pressure tendency (and any tracer tendency returned) is exactly zero', 'valid' if zero(out.log_surface_pressure) and all(zero(v_) for v_ in getattr(out, 'tracers', {}).values()) else 'invalid',
+                                       back_end='multilinear-normal-form'))
+
+
+def held_suarez_clauses():
+  rc = lambda c, n=2: (lambda ctx: run_contract(c, min_obligations=n, setup=_setup, timeout_ms=30000, max_paths=50))
+  H = 'dinosaur.held_suarez.HeldSuarezForcing.'
+  return [Clause('smt:HeldSuarezForcing.explicit_terms == Rayleigh drag on the unclipped wind and Newtonian relaxation as an operator expression; pressure and tracer tendencies zero (all fields, sizes)', 'smt',
+                 [H + 'explicit_terms', 'dinosaur.primitive_equations.compute_diagnostic_state'], rc(held_suarez_contract, 4), group='pyvc')]
+
+
 # ---- C12: dimensional homogeneity of the tendencies (scale invariance) ---------------------------------------------------------------------
 
 import fractions
